@@ -955,6 +955,32 @@ func runC12Conc(c *core.Ctx) {
 		DescribeOperation: func(in, out interface{}) string { return c12DescribeOp(in.(c12Op), out.(c12Res)) },
 	}
 	res := porcupine.CheckOperationsTimeout(model, hist, 5*time.Second)
+	if res == porcupine.Illegal {
+		// writes that reported an error may or may not count as "wrote to the address" (see c12Res.Bound)
+		var failed []int
+		for i, op := range hist {
+			if in := op.Input.(c12Op); in.Kind == c12OpWrite && !op.Output.(c12Res).OK {
+				failed = append(failed, i)
+			}
+		}
+		if len(failed) > 4 {
+			failed = failed[:4]
+		}
+		for mask := 1; mask < 1<<len(failed) && res == porcupine.Illegal; mask++ {
+			alt := append([]porcupine.Operation(nil), hist...)
+			for b, i := range failed {
+				if mask&(1<<b) != 0 {
+					out := alt[i].Output.(c12Res)
+					out.Bound = true
+					alt[i].Output = out
+				}
+			}
+			if r := porcupine.CheckOperationsTimeout(model, alt, 5*time.Second); r != porcupine.Illegal {
+				res = r
+				c.Probe("failed-write-counted-as-write")
+			}
+		}
+	}
 	switch {
 	case res == porcupine.Unknown || stepsUsed.Load() > stepBudget:
 		c.Probe("porcupine-inconclusive")
@@ -1028,6 +1054,11 @@ type c12Op struct {
 type c12Res struct {
 	OK  bool
 	Pay int // Read: payload id
+	// Bound (WriteTo that reported an error): the write is taken to have bound the address all the same. The
+	// statement speaks of the connection that "wrote to" the address; whether a write that ended in an error
+	// (the mux was closed under it, the socket refused it) counts is not said, and the datagram may or may not
+	// have left. Both readings are accepted: the linearizability check tries both for every failed write.
+	Bound bool
 }
 
 func c12Fam(a int) int {
@@ -1124,7 +1155,7 @@ func c12Step(s c12St, in c12Op, out c12Res, queue bool) (bool, c12St) {
 		return true, s
 	case c12OpWrite:
 		k := int(s.HConn[in.H])
-		if k == 0 || !out.OK || s.MuxClosed || s.CClosed[k-1] || !s.CReg[k-1] {
+		if k == 0 || !(out.OK || out.Bound) || s.MuxClosed || s.CClosed[k-1] || !s.CReg[k-1] {
 			// no effect: the write failed (closed handle, closed connection) or the connection was removed.
 			// A write that was pending when its handle was closed and still went out counts as a write of
 			// the connection (which lives on through the sibling handles).
